@@ -50,11 +50,11 @@ func Run(id string, p *load.Program, tier string) *report.Result {
 
 // Graph returns the cached statement-level CFG of a declared function.
 func (c *Ctx) Graph(fi *load.FuncInfo) *cfgx.Graph {
-	if g, ok := c.graphs[fi.Decl]; ok {
+	if g, ok := c.graphs[fi.Node()]; ok {
 		return g
 	}
-	g := cfgx.New(fi.Name(), fi.Decl.Body, fi.Pkg.TypesInfo)
-	c.graphs[fi.Decl] = g
+	g := cfgx.New(fi.Name(), fi.Body(), fi.Pkg.TypesInfo)
+	c.graphs[fi.Node()] = g
 	return g
 }
 
